@@ -230,7 +230,7 @@ func genSession(r *rand.Rand, id string) *Case {
 		in = append(in, msgPassword(pick(r, []string{"ok", "okay", "bad", "fail", ""}))...)
 	}
 	if r.Intn(3) == 0 {
-		c.MW = pick(r, []string{"o", "oo", "of", "f", "ooo"})
+		c.MW = pick(r, []string{"o", "oo", "of", "f", "ooo", "no", "ono"})
 	}
 	c.Term = r.Intn(3)
 	if r.Intn(3) == 0 {
